@@ -79,7 +79,7 @@ func matchStatement(cur Statement, node ipld.Node) (_ matchResult, leafMost Stat
 			if res == nil { // optional selector didn't match
 				return matchResultOptionalNoData, nil
 			}
-			return boolToRes(datamodel.DeepEqual(s.value, res))
+			return boolToRes(deepEqual(s.value, res))
 		}
 	case KindGreaterThan:
 		if s, ok := cur.(equality); ok {
@@ -239,6 +239,19 @@ func matchStatement(cur Statement, node ipld.Node) (_ matchResult, leafMost Stat
 		}
 	}
 	panic(fmt.Errorf("unimplemented statement kind: %s", cur.Kind()))
+}
+
+// deepEqual is datamodel.DeepEqual, except that it reports false instead of
+// panicking when a node cannot be read (DeepEqual panics on integers above
+// MaxInt64, which DAG-CBOR can carry and which are outside the safe bounds anyway).
+func deepEqual(expected ipld.Node, actual ipld.Node) (equal bool) {
+	defer func() {
+		if r := recover(); r != nil {
+			equal = false
+		}
+	}()
+
+	return datamodel.DeepEqual(expected, actual)
 }
 
 // isOrdered compares two IPLD nodes and returns true if they satisfy the given ordering function.
